@@ -74,7 +74,6 @@ func (x *runner) finish(id int, corr bool, nontrivial bool, input interface{}, o
 func runReuse[T any](x *runner, m *rulesh.Mod[T], prefix string, id int, corr bool) {
 	c := rulesh.GenCase(m, x.root.Fork(uint64(id)), prefix, id, true)
 	obs := rulesh.Run(m, c, false)
-	rulesh.Monitor(m, c, obs, x.rep)
 	nt := rulesh.MonitorReuse(m, c, obs, x.rep)
 	rulesh.CountGeneric(m, c, obs, x.rep)
 	x.finish(id, corr, nt, rulesh.InputOf(m, c), rulesh.ObservedOf(m, c, obs), rulesh.CoqCase(m, c, obs))
@@ -88,7 +87,7 @@ func main() {
 	rulesh.Clk = clk
 	x := &runner{a: a, root: rng.New(a.Seed), rep: emit.NewReport("C14", a.Seed, a.Tier), dist: emit.NewDistinct()}
 	x.rep.Rule = "reuse: load histories of 3-7 operations over 1-2 resources with equal rules under fresh IDs, statistic-reusable variants, duplicates; meta: one stateful subject rule (flow: throttling / warm-up / reject over private or shared statistics; breaker: three strategies with small thresholds; hotspot: QPS reject, QPS throttling, concurrency) plus permissive other rules, 10-40 requests in 2-4 segments, bursts of 1-3 reloads between segments; stat: designed accumulate-modify-decide scenarios. Non-trivial = reuse: some controller was kept for an equal rule across an effective load; meta: run A contains at least one rejection or wait after the first reload position and at least one admission (the subject rule's state matters); stat: always; distinct by full input."
-	nCorr := a.Pick(a.N, 30, 1000)
+	nCorr := a.Pick(a.N, 24, 1000)
 	nMon := a.Pick(a.Mon, 300, 8000)
 	if a.Search {
 		nCorr = 0
@@ -127,11 +126,11 @@ func main() {
 		default:
 			switch mod {
 			case 0:
-				runStat(x, fk, id)
+				runStat(x, fk, id, corr)
 			case 1:
-				runStat(x, hk, id)
+				runStat(x, hk, id, corr)
 			default:
-				runStat(x, bk, id)
+				runStat(x, bk, id, corr)
 			}
 		}
 	}
